@@ -70,7 +70,32 @@ pub fn recreated_failure(prev: Option<Fmt>, f: Fmt, x: &LexNarsese) -> Option<St
             with_recreated_lex(p, |l| failure_in(l, &LexNarsese::Term(warm)));
         }
     }
-    with_recreated_lex(f, |l| failure_in(l, x)).map(|w| format!("with a format just created by the public factory (in the place of a dropped {} format): {}", prev.map_or("-", |p| p.name()), w))
+    if let Some(w) = with_recreated_lex(f, |l| failure_in(l, x)) {
+        return Some(format!("with a format just created by the public factory (in the place of a dropped {} format): {}", prev.map_or("-", |p| p.name()), w));
+    }
+    // the very same text, immediately afterwards, through the other vocabularies created in the same place:
+    // whatever that gives (usually an error), it is what the static instance of that vocabulary gives
+    let text = f.l().format_narsese(x);
+    for g in ALL_FMT.iter().copied().filter(|g| *g != f) {
+        let class = |r: Result<LexNarsese, String>| match r {
+            Ok(v) => format!("Ok({})", lexgen::lex_canon(&v)),
+            Err(_) => "Err".to_string(),
+        };
+        let want = match observe(|| g.l().parse(&text).map_err(|e| e.to_string())) {
+            Obs::Ret(r) => class(r),
+            Obs::Panic(_) => continue, // owned by C05
+        };
+        // (f's own parse of the text again, so that it is the call made just before)
+        let _ = with_recreated_lex(f, |l| observe(|| l.parse(&text).is_ok()));
+        let got = match with_recreated_lex(g, |l| observe(|| l.parse(&text).map_err(|e| e.to_string()))) {
+            Obs::Ret(r) => class(r),
+            Obs::Panic(p) => format!("PANIC({})", crate::guard::panic_site(&p)),
+        };
+        if got != want {
+            return Some(format!("{:?} parsed by a {} format created where the {} format that had just parsed the same text was = {}, the static {} instance gives {}", text, g.name(), f.name(), got, g.name(), want));
+        }
+    }
+    None
 }
 
 // ---- shrinking of lexical values ----
